@@ -152,6 +152,16 @@ func (c *FmtCodec) Do(op Op) {
 			// turn them into fenced code blocks, moving the content to the
 			// second line and avoiding this problem. Other types of blocks
 			// either don't allow leading spaces, or don't preserve them.
+			//
+			// The line will consist of markers only; avoid writing a thematic
+			// break (same as for empty list items in OpListItemEnd).
+			for i := 2; i < len(c.containers); i++ {
+				ct := c.containers[i]
+				if allDashBullets(c.containers[i-2 : i+1]) {
+					ct.punct = pickPunct('-', '*', ct.punct)
+					ct.marker = fmt.Sprintf("%c   ", ct.punct)
+				}
+			}
 			lastMarker := &c.containers[len(c.containers)-1].marker
 			*lastMarker = strings.TrimRight(*lastMarker, " ") + " "
 			c.writeLine("")
